@@ -120,7 +120,7 @@ def main(argv=None):
         samples.extend(rep["samples"])
     samples = samples[:: max(1, len(samples) // 5)][:5]
 
-    outdir = os.path.join(core.VERIF_ROOT, "out", pid)
+    outdir = os.path.join(os.environ.get("VERIF_OUT_DIR") or os.path.join(core.VERIF_ROOT, "out"), pid)
     os.makedirs(outdir, exist_ok=True)
     lines = []
     from vf.worker import load_known
@@ -162,8 +162,9 @@ def main(argv=None):
     }
     if errors:
         evidence["coverage"]["harness_errors"] = errors[:5]
-    os.makedirs(os.path.join(core.VERIF_ROOT, "evidence"), exist_ok=True)
-    with open(os.path.join(core.VERIF_ROOT, "evidence", f"{pid}.json"), "w", encoding="utf-8") as fh:
+    evdir = os.environ.get("VERIF_EVIDENCE_DIR") or os.path.join(core.VERIF_ROOT, "evidence")
+    os.makedirs(evdir, exist_ok=True)
+    with open(os.path.join(evdir, f"{pid}.json"), "w", encoding="utf-8") as fh:
         fh.write(core.dumps(evidence, indent=1))
 
     for ln in lines:
